@@ -222,3 +222,20 @@ def graph_workload(ctx, case, rng, multi_sub_p=0.15, safe_regex=True, cfg_pool=N
       ctx.count('returned')
       ctx.count('returned:' + lab.split(':')[0])
     yield spec, src, datasets, lab, run, acc
+
+
+def risky_info(run, spec, datasets, info=None):
+  """call-event info with the model and inputs saved for gdb attribution of an abort (see vf/run/abortinfo.py)."""
+  import os
+  from vf.run import abortinfo, driver
+  from vf.props import c01
+  info = dict(info or {})
+  try:
+    info['census'] = c01.int16_census(models.read(run.out))
+    info['recipe'] = run.recipe
+    info['ops'] = describe_model(spec.content)
+    info['model_path'], info['feeds_path'] = abortinfo.save(
+        os.path.join(driver.ROOT, '.work', 'risky'), run.out, {s['key']: datasets[s['key']][0] for s in spec.signatures})
+  except Exception:  # pylint: disable=broad-except
+    pass
+  return info
